@@ -128,8 +128,41 @@ func (es *ExpressionStatement) WriteTo(cw *CodeWriter) {
 	if es.Expression == nil {
 		return
 	}
+	// A statement that begins with `{` or `function` would be read back as a block
+	// or a function declaration: such an expression is written inside parentheses
+	if startsWithBraceOrFunction(es.Expression) {
+		cw.WriteRune('(')
+		cw.IncreaseIndent()
+		es.Expression.WriteTo(cw)
+		cw.DecreaseIndent()
+		cw.WriteRune(')')
+		cw.WriteSemi()
+		return
+	}
 	es.Expression.WriteTo(cw)
 	cw.WriteSemi()
+}
+
+// startsWithBraceOrFunction reports whether the first token written for expr
+// is the `{` of an object literal or the `function` keyword.
+func startsWithBraceOrFunction(expr Expression) bool {
+	switch e := expr.(type) {
+	case *ObjectLiteral, *FunctionExpression:
+		return true
+	case *BinaryExpression:
+		return e.Left.Precedence() >= e.Precedence() && startsWithBraceOrFunction(e.Left)
+	case *PostfixExpression:
+		return e.Left.Precedence() >= PrecedencePostfix && startsWithBraceOrFunction(e.Left)
+	case *CallExpression:
+		return startsWithBraceOrFunction(e.Function)
+	case *MemberExpression:
+		return startsWithBraceOrFunction(e.Object)
+	case *AssignmentExpression:
+		return startsWithBraceOrFunction(e.Left)
+	case *CompoundAssignmentExpression:
+		return startsWithBraceOrFunction(e.Left)
+	}
+	return false
 }
 
 type FunctionDeclaration struct {
